@@ -5,7 +5,7 @@
 //
 // spec.json: [{"file":"internal/x/y.go","kinds":["yield","vclock"]}, ...]
 //
-// Kinds: yield, vclock, osshim, smtperr (see rewrite.go).
+// Kinds: yield, vclock, osshim, smtperr, vticker (see rewrite.go).
 //
 // All rewrites are purely textual insertions/replacements on the original
 // line, so the rewritten file has the same line numbering as the original.
